@@ -728,6 +728,16 @@ func (env *Env) call(x *SExpr) Value {
 			op = ">="
 		}
 		return Value{T: a.T, S: []string{"(ite (" + op + " " + a.S[0] + " " + b.S[0] + ") " + a.S[0] + " " + b.S[0] + ")"}}
+	case "same":
+		a, b := env.unify(env.eval(args[0]), env.eval(args[1]))
+		if len(a.S) != len(b.S) {
+			specFail("same() on different shapes")
+		}
+		var parts []string
+		for i := range a.S {
+			parts = append(parts, "(= "+a.S[i]+" "+b.S[i]+")")
+		}
+		return boolVal("(and " + strings.Join(parts, " ") + ")")
 	case "fin":
 		return boolVal(fIsFin(env.eval(args[0])))
 	case "isnan":
@@ -873,6 +883,28 @@ func (env *Env) modEntries(x *SExpr, text string) []modEntry {
 			return out
 		}
 		specFail("modifies %s: not a slice or map", text)
+	}
+	if x.Op == "sel" && x.Args[0].Op == "call" && x.Args[0].Args[0].Op == "ident" && x.Args[0].Args[0].Name == "each" {
+		// each(*T).field : the field of every object of type T (whole component)
+		tt := env.resolveType(x.Args[0].Args[1].String())
+		pt, ok := tt.Underlying().(*types.Pointer)
+		if !ok {
+			specFail("modifies %s: each() needs a pointer type", text)
+		}
+		st, ok := pt.Elem().Underlying().(*types.Struct)
+		if !ok {
+			specFail("modifies %s: each() needs a pointer to struct", text)
+		}
+		idx := fieldIndex(st, x.Name)
+		if idx < 0 {
+			specFail("modifies %s: no field %s", text, x.Name)
+		}
+		for _, sd := range slotsOf(st.Field(idx).Type()) {
+			name := heapComp(pt.Elem(), "."+x.Name+sd.Path)
+			e.compSort[name] = "(Array Int " + sd.Sort + ")"
+			out = append(out, modEntry{comp: name, text: text})
+		}
+		return out
 	}
 	if x.Op == "sel" && x.Name == "_" {
 		base := env.eval(x.Args[0])
